@@ -5,7 +5,7 @@ def run(ctx):
     # design: every elementary operation of the SNF machine preserves T = P A Q, P Pi = I, Q Qi = I
     ctx.tlc_mc("MC_SnfSteps", "MC_SnfSteps.thorough.cfg" if ctx.thorough else "MC_SnfSteps.cfg", workers=8, timeout=2400, coverage=False)
     # the result contract pins the diagonal down (gcd-of-minors definition) on all small integer matrices
-    ctx.tlc_mc("MC_SNF", "MC_SNF.cfg", workers=1, coverage=False, timeout=900)
+    ctx.tlc_mc("MC_SNF", "MC_SNF.thorough.cfg" if ctx.thorough else "MC_SNF.cfg", workers=1, coverage=False, timeout=1800, cache=True)
     trace = ctx.path("trace.ndjson")
     summ, _, _ = ctx.yv("c09", "record", "--seed", ctx.seed, "--tier", ctx.tier, "--out", trace, timeout=3000)
     rec = summ["record"]
